@@ -82,6 +82,9 @@ def option_items(tier):
             out.append((sp, dict(o, absence=[1], post_insert=lst)))  # (step 1 is an absence step already)
         for lst in ([1], [0, 2], [1, 50], [2, 3, 60], [70], [2, 1, 2], [1, 1], [0, 3, 0, 3]):
             out.append((sp, dict(o, absence=lst, post_remove=True)))
+        # a holiday inserted before the ones the run had, then "the absence steps" deleted: the stored list names a worked step by then; whatever is deleted is deleted at every level
+        for ab, ins in (([3], [1]), ([2], [0]), ([1, 4], [2]), ([2], [1, 2])):
+            out.append((sp, dict(o, absence=ab, post_insert=ins, post_remove="after-insert")))
     # backward runs (logs reversed into forward-time reading, and left as they are) of models whose cost profile is not a palindrome
     back = [it for it in items(tier) if it[0].get("workplaces") and it[1]["max_time"] > 2][:: (3 if tier == "quick" else 1)]
     back += [(F.two_team_workplace_spec(), {"rule": "TSLACK", "max_time": 20})] + [(sp, {"rule": "TSLACK", "max_time": 30}) for sp in F.rule_sensitive_specs() if sp["label"].startswith("pairs")]
@@ -98,6 +101,8 @@ def run(tier, seed):
     col = stepcheck.explore(its, MONS, H, D, seed=seed, max_group=1 if tier == "quick" else 2)
     oi = option_items(tier)
     col.merge(stepcheck.explore(oi, MONS, 0, 0, seed=seed))
+    # rates agreed at a stop (or between two runs) for resources that have not worked yet
+    col.merge(stepcheck.explore(stepcheck.resumed_edit_items(("set-rates",), ks=(1, 2, 3, 4)) + stepcheck.edited_items(names=("set-rates",)), MONS, 0, 0, seed=seed))
     col.merge(stepcheck.explore(F.scale_items(("TSLACK",)), MONS, 0, 0, seed=seed))  # medium-sized models (10-14 tasks / workers / machines), long absence lists
     meta = {
         "level": "model_checking",
